@@ -30,6 +30,7 @@ import (
 	"testing/synctest"
 	"time"
 
+	"github.com/twmb/franz-go/pkg/kerr"
 	"github.com/twmb/franz-go/pkg/kfake"
 	"github.com/twmb/franz-go/pkg/kgo"
 	"github.com/twmb/franz-go/pkg/kmsg"
@@ -257,6 +258,18 @@ func runGrp(t *testing.T, tk []string) string {
 	gctx := ctx
 	if bal == 4 {
 		gctx = context.WithValue(ctx, "opt_in_kafka_next_gen_balancer_beta", true) //nolint
+	}
+	if bal == 3 && seed%7 == 3 {
+		// next-gen opt-in against a broker that does not serve it: every ConsumerGroupHeartbeat is answered
+		// UNSUPPORTED_VERSION, the members fall back to the classic protocol and run it as cooperative members
+		gctx = context.WithValue(ctx, "opt_in_kafka_next_gen_balancer_beta", true) //nolint
+		cluster.ControlKey(68, func(kreq kmsg.Request) (kmsg.Response, error, bool) {
+			cluster.KeepControl()
+			resp := kreq.ResponseKind().(*kmsg.ConsumerGroupHeartbeatResponse)
+			resp.ErrorCode = kerr.UnsupportedVersion.Code
+			return resp, nil, true
+		})
+		hx.St.Inc("scen.grp.next-gen-opt-in-falls-back-to-classic")
 	}
 	// KIP-848: the heartbeat interval is the broker's (kfake: 5s) and kgo acknowledges a revocation with its next
 	// regular heartbeat, so a rebalance timeout below that interval gets every revoking member fenced (it is
